@@ -1,5 +1,6 @@
 import GrmVerif.Drive.C19
 import GrmVerif.Drive.C17
+import GrmVerif.Drive.C09
 /-! `gvdriver`: one request per line `<prop> <case-id> <nat>…`; replies are prefixed with the case id. -/
 open GrmVerif.Drive
 
@@ -7,6 +8,7 @@ def dispatch (prop : String) (args : List Nat) : String :=
   match prop with
   | "C19" => C19.handle args
   | "C17" => C17.handle args
+  | "C09" => C09.handle args
   | _ => "bad-prop"
 
 def prefixLines (id : String) (s : String) : String :=
